@@ -31,6 +31,6 @@ MANIFEST_ENTRY = dict(
     category='other',
     engine='bounded',
     technique='sidecar contracts on the real functions: wiring / closed-form obligations from the AST discharged by z3 and the ring normaliser where the functions are within reach; bounded run-time contracts with independent oracles for the rest (never counted as proved)',
-    text='Marginalise/filter/reorder/combine/scramble against explicit re-indexing oracles for 2-6 dimensions.',
+    text='Discharged from the real source on every run (all values, stated small shapes): reorder_pops for every permutation of 2-4 populations; combine_two_pops, Misc.combine_pops, marginalize (any over order), filter_pops, scramble_pop_ids by explicit index arithmetic incl. labels, masks, totals. Bounded run-time contracts (never counted as proved): Marginalise/filter/reorder/combine/scramble against explicit re-indexing oracles for 2-6 dimensions.',
     note='bounded: see coverage.bounded.drivers[].bound in the evidence file for the exact domain of every driver',
 )
